@@ -1,0 +1,84 @@
+//go:build verif
+
+package proxy
+
+import (
+	"crypto/rsa"
+	"time"
+
+	"go.minekube.com/gate/pkg/edition/java/internal/velocity"
+	"go.minekube.com/gate/pkg/edition/java/profile"
+	"go.minekube.com/gate/pkg/edition/java/proxy/crypto"
+	"go.minekube.com/gate/pkg/edition/java/proxy/crypto/keyrevision"
+	"go.minekube.com/gate/pkg/gate/proto"
+	"go.minekube.com/gate/pkg/util/uuid"
+)
+
+// Exports for the external verification harness of Velocity modern forwarding (C20).
+// package velocity is internal, so the harness reaches it through these thin wrappers.
+// VerifC20Player / VerifC20Key are inert data holders implementing the interfaces the
+// forwarding code reads from (no logic).
+
+// VerifC20Key is a fake identified key. Rev is "v1" (GenericV1) or "v2" (LinkedV2).
+type VerifC20Key struct {
+	Rev      string
+	ExpiryMs int64
+	Pub      []byte
+	Sig      []byte
+	Holder   uuid.UUID
+}
+
+func (k *VerifC20Key) Signer() *rsa.PublicKey          { return nil }
+func (k *VerifC20Key) ExpiryTemporal() time.Time       { return time.UnixMilli(k.ExpiryMs) }
+func (k *VerifC20Key) Expired() bool                   { return false }
+func (k *VerifC20Key) Signature() []byte               { return k.Sig }
+func (k *VerifC20Key) SignatureValid() bool            { return true }
+func (k *VerifC20Key) Salt() []byte                    { return nil }
+func (k *VerifC20Key) SignedPublicKey() *rsa.PublicKey { return nil }
+func (k *VerifC20Key) SignedPublicKeyBytes() []byte    { return k.Pub }
+func (k *VerifC20Key) VerifyDataSignature(signature []byte, toVerify ...[]byte) bool {
+	return false
+}
+func (k *VerifC20Key) SignatureHolder() uuid.UUID { return k.Holder }
+func (k *VerifC20Key) KeyRevision() keyrevision.Revision {
+	if k.Rev == "v1" {
+		return keyrevision.GenericV1
+	}
+	return keyrevision.LinkedV2
+}
+
+var _ crypto.IdentifiedKey = (*VerifC20Key)(nil)
+
+// VerifC20Player is a fake velocity.ConnectedPlayer.
+type VerifC20Player struct {
+	UUID  uuid.UUID
+	Name  string
+	Props []profile.Property
+	Proto int
+	Key   *VerifC20Key // nil: no key
+}
+
+func (p *VerifC20Player) ID() uuid.UUID    { return p.UUID }
+func (p *VerifC20Player) Username() string { return p.Name }
+func (p *VerifC20Player) GameProfile() profile.GameProfile {
+	return profile.GameProfile{ID: p.UUID, Name: p.Name, Properties: p.Props}
+}
+func (p *VerifC20Player) Protocol() proto.Protocol { return proto.Protocol(p.Proto) }
+func (p *VerifC20Player) IdentifiedKey() crypto.IdentifiedKey {
+	if p.Key == nil {
+		return nil
+	}
+	return p.Key
+}
+
+var _ velocity.ConnectedPlayer = (*VerifC20Player)(nil)
+
+// VerifC20FindForwardingVersion is velocity.findForwardingVersion.
+func VerifC20FindForwardingVersion(requested int, p *VerifC20Player) int {
+	return velocity.VerifFindForwardingVersion(requested, p)
+}
+
+// VerifC20CreateForwardingData is velocity.CreateForwardingData.
+func VerifC20CreateForwardingData(secret []byte, address string, p *VerifC20Player, requested int) ([]byte, error) {
+	return velocity.CreateForwardingData(secret, address, p, requested)
+}
